@@ -115,6 +115,8 @@ type Check struct {
 	Exhaustive func(env *Env) bool
 	// WorkerWrap, if set, is used to build the worker command (e.g. to run it under strace or a -race binary).
 	WorkerBinary func(env *Env) string
+	// WorkerEnv returns extra environment variables for worker processes (tmp is the run's scratch directory).
+	WorkerEnv func(env *Env, tmp string) []string
 	// CaseTimeout is the wall-clock watchdog per worker (inconclusive when it fires). Default 20 min.
 	WorkerTimeout time.Duration
 }
@@ -145,6 +147,7 @@ type Aggregate struct {
 	Samples      []interface{}
 	Inconclusive []string
 	Deaths       []string
+	TmpDir       string // scratch directory of the run (worker logs etc.), removed afterwards
 }
 
 func newAggregate() *Aggregate {
@@ -449,6 +452,18 @@ func loadFindings() []Finding {
 	return fs
 }
 
+// KnownFingerprints returns the fingerprints of all recorded-but-unrepaired findings (any property). Relational
+// checks (C06, C19) use it so that a known defect of another property is not re-reported as their own.
+func KnownFingerprints() map[string]bool {
+	out := map[string]bool{}
+	for _, f := range loadFindings() {
+		if f.State == "known" {
+			out[f.Fingerprint] = true
+		}
+	}
+	return out
+}
+
 // ParentMain runs check id and returns the process exit code.
 func ParentMain(id string, opt Options) int {
 	c := Lookup(id)
@@ -497,6 +512,7 @@ func ParentMain(id string, opt Options) int {
 		}
 	}
 	agg := newAggregate()
+	agg.TmpDir = tmp
 	var mu sync.Mutex
 
 	runWorker := func(tag string, shard, nsh int, extra ...string) workerOutcome {
@@ -509,6 +525,9 @@ func ParentMain(id string, opt Options) int {
 		cmd.Stdout = ef
 		cmd.Stderr = ef
 		cmd.Env = append(os.Environ(), "VERIF_WORKER=1")
+		if c.WorkerEnv != nil {
+			cmd.Env = append(cmd.Env, c.WorkerEnv(env, tmp)...)
+		}
 		var wo workerOutcome
 		if err := cmd.Start(); err != nil {
 			wo.exitErr = err.Error()
